@@ -154,10 +154,10 @@ func Run(rc *core.RunCtx) {
 	plan.Faults = map[string]refexec.Kind{"events.blob": refexec.KMarshalPanic, "blob": refexec.KMarshalPanic}
 	// which oracles apply: C11 = protocol monitor; C04 = containment of failures; C05 = nothing
 	// left running
-	protocol := rc.Property != "C05" && rc.Property != "C07"
+	protocol := rc.Property != "C05" && rc.Property != "C07" && rc.Property != "C01"
 	// C07 = every result carries the content of its own operation (no leak between operations
 	// sharing the connection); also part of C11's "receives its results"
-	content := rc.Property == "C07" || rc.Property == "C11" || rc.Property == "C03"
+	content := rc.Property == "C07" || rc.Property == "C11" || rc.Property == "C03" || rc.Property == "C01"
 
 	transportWS := t.Choose(2, "proto") == 1
 	proto := "graphql-ws"
@@ -961,6 +961,34 @@ func Run(rc *core.RunCtx) {
 			}
 			switch o.kind {
 			case "query", "mutation", "query-vars", "query-named":
+			case "sub-events":
+				// the k-th event: data and errors of its payload equal the reference evaluation of
+				// the subscription's selection on that event (paths inside an event do not carry
+				// the root field in gqlgen)
+				k := valueOf(f.Payload)
+				if k == 0 {
+					continue
+				}
+				p := execsim.ParseBody(string(f.Payload))
+				doc, perr := parser.ParseQuery(&ast.Source{Input: o.query})
+				if p.JSONErr != "" || perr != nil || len(ops.Validate(u.Schema, doc)) > 0 {
+					rc.Fail("invalid-json", "event-frame", "operation %s: %s %s\n%s", o.id, p.JSONErr, clip(string(f.Payload)), desc())
+					return
+				}
+				root := doc.Operations[0].SelectionSet[0].(*ast.Field)
+				ref := refexec.ExecuteSelection(env, doc, root.SelectionSet, "Post", fmt.Sprintf("events@%d", k), "", nil)
+				want := parsers.NewObj()
+				want.Set("events", ref.Data)
+				if p.Data == nil || p.Data.Canon() != want.Canon() {
+					rc.Fail("result-not-its-own", "event", "operation %s event %d: expected data %s\ngot %s\n%s", o.id, k, want.Canon(), clip(string(f.Payload)), desc())
+					return
+				}
+				if d := execsim.CompareErrs(ref.Errors, p.Errors); d != "" {
+					rc.Fail("result-not-its-own", "event-errors", "operation %s event %d: %s\npayload %s\n%s", o.id, k, d, clip(string(f.Payload)), desc())
+					return
+				}
+				checked++
+				continue
 			case "rejected-by-parameter-gate", "rejected-by-context-gate":
 				// answered with errors only
 				p := execsim.ParseBody(string(f.Payload))
